@@ -367,7 +367,7 @@ func formatPostingWithOpts(posting *ast.Posting, alignment AlignmentInfo, commod
 
 	if posting.Comment != "" {
 		sb.WriteString("  ; ")
-		sb.WriteString(posting.Comment)
+		sb.WriteString(strings.TrimSpace(posting.Comment))
 	}
 
 	return sb.String()
